@@ -496,6 +496,25 @@ def ring_edge(v, own):
     v.cov["distinct_nontrivial"] += len(cases)
 
 
+def ring_close_replay(v, own):
+    """Teardown rests on buffer.Close releasing whoever waits in the ring: the gated schedules of the Ring configurations
+    with a closer (Close between a waiter's test of the done flag and its Wait included), replayed for C16."""
+    for name, over, in_quick in RING_GEN:
+        if name not in ("w-rw", "ww-rp"):
+            continue
+        path, meta = ring_schedules(name, over)
+        v.cov["tlc_runs"].append(dict(name="schedules " + name, **meta))
+        scheds = [json.loads(l) for l in open(path)]
+        scheds = [x for x in scheds if any(st.startswith("X ") for st in x["h"])]
+        res = core.merge(core.run_sharded(["ringreplay", "-stepms", "2500", "-own", "C15"], scheds, timeout=1200))
+        mine = [m for m in res.get("mismatches", []) if m.get("tag") in own]
+        v.mismatches(mine)
+        v.cov["parts"]["ring-close-schedules:" + name] = {"replayed": res.get("evaluations", 0), "steps": res.get("steps", 0),
+                                                          "mismatching": res.get("nmismatch", 0), "own": len(mine)}
+        v.cov["evaluations"] += res.get("evaluations", 0)
+        v.cov["traces_validated_against_impl"] += res.get("evaluations", 0)
+
+
 def ring_check(pid, tier):
     v = Verdict(pid, tier)
     thorough = tier == "thorough"
@@ -882,6 +901,7 @@ CONSTANTS
  LongGaps = {26}
  MaxSends = %d
  Kinds = {"ping", "pub", "part1", "part3"}
+ Priors = {"none", "long"}
 INVARIANTS SilentDropped WillIffExpired Emit
 PROPERTIES ActiveNeverDropped
 """
@@ -899,7 +919,9 @@ def c19(tier):
     # always: silent from the start, silent after traffic, pinging at 0.4 K and 0.8 K, publishes only
     # always: silent from the start, regular pinging, and every (short gap, long gap) pair (an irregular
     # client: the deadline must be re-armed by EVERY packet); plus a seeded sample of the rest
-    fixed = [s for s in scheds if len(s) <= 3]
+    # (the variants "keeps receiving" and "resumes a session with another keep-alive" with at most one packet before the
+    # silence, the plain client with up to two)
+    fixed = [s for s in scheds if len(s) <= 2 or (len(s) == 3 and not s[0].get("fed") and s[0].get("prior") == "none")]
     rest = [s for s in scheds if s not in fixed]
     rng.shuffle(rest)
     chosen = fixed + rest[:(16 if not thorough else 200)]
@@ -1009,6 +1031,7 @@ def c16(tier):
         cfg = TEARDOWN_CFG % (maxsend, subs, wills)
         r = core.cached_tlc(name, "MCTeardown", cfg, workers=8, timeout=2400)
         v.tlc(name, r)
+    ring_close_replay(v, {"C15"})
     faults_run(v, "C16", [("FALSE", "FALSE", "FALSE", 3 if not thorough else 4), ("TRUE", "FALSE", "FALSE", 3 if not thorough else 4),
                           ("FALSE", "TRUE", "FALSE", 4 if not thorough else 5),
                           ("FALSE", "FALSE", "FALSE", 2 if not thorough else 3, "small"), ("FALSE", "FALSE", "FALSE", 2 if not thorough else 3, "big"), ("FALSE", "FALSE", "FALSE", 2 if not thorough else 3, "mid"),
